@@ -949,7 +949,7 @@ def inGoFragment (env : Env) (file : AFile) (n : Nat) (f : AFn) : Bool :=
 
 mutual
 /-- the types of the typing half: unit, bool, string, an integer type of a width Go has, struct types (closure
-    environments included), function types, references, tuples and arrays (of at most 10^8 elements: Go rejects the
+    environments included), enum types, function types, references, tuples and arrays (of at most 10^8 elements: Go rejects the
     declaration of a longer one) of those -/
 def stdTy : Ty → Bool
   | .unit => true
@@ -957,6 +957,7 @@ def stdTy : Ty → Bool
   | .string => true
   | .int b _ => b == 8 || b == 16 || b == 32 || b == 64
   | .struct _ => true
+  | .enum _ => true
   | .func ps r => stdTys ps && stdTy r
   | .ref e => stdTy e
   | .tuple ts => stdTys ts
@@ -970,7 +971,7 @@ end
 def stdImm : Imm → Bool
   | .var _ t => stdTy t
   | .prim _ t => stdTy t
-  | .tag _ _ => false
+  | .tag _ t => stdTy t
 
 /-- the second argument (the index of `array_get` / `array_set`) is an `int32` -/
 def idxI32 (args : List Imm) : Bool :=
@@ -981,34 +982,56 @@ def idxI32 (args : List Imm) : Bool :=
 mutual
 /-- scalars, operators, calls of functions (also through a local of function type) / printing builtins / the reference and
     array helpers (an array index of type `int32`: the helper's parameter type), construction and field access of structs,
-    tuples and arrays, `let`, `if`, `while` -/
-def stdC (env : Env) (file : AFile) : CExpr → Bool
+    enum variants, tuples and arrays, `let`, `if`, `while`, `match` (on an enum variable that the enclosing arms have not
+    narrowed already: `K`, as in `fragC`; on a literal; on unit) -/
+def stdC (env : Env) (file : AFile) (K : KCtx) : CExpr → Bool
   | .imm i => stdImm i
   | .un _ e ty => stdImm e && stdTy ty
   | .bin _ l r ty => stdImm l && stdImm r && stdTy ty
   | .call f args ty =>
     args.all stdImm && stdTy ty &&
     (match f with
-     | .var name _ =>
-       !vecNames.contains name &&
-       (!arrNames.contains name || idxI32 args)
+     | .var name _ => !vecNames.contains name && (!arrNames.contains name || idxI32 args)
      | _ => false)
-  | .constr (.struct _) args ty => args.all stdImm && stdTy ty
+  | .constr _ args ty => args.all stdImm && stdTy ty
   | .cget e (.struct sn) _ ty => (goodStructs env).contains sn && stdImm e && stdTy ty
+  | .cget e (.enum _ _ _) _ ty => stdImm e && stdTy ty
   | .tuple items ty => items.all stdImm && stdTy ty
   | .proj e _ ty => tupleTyOK env file e.ty && stdImm e && stdTy ty
   | .array items ty => items.all stdImm && stdTy ty
-  | .ite c t e ty => stdImm c && stdA env file t && stdA env file e && stdTy ty
-  | .while c b ty => stdA env file c && stdA env file b && stdTy ty
+  | .ite c t e ty => stdImm c && stdA env file K t && stdA env file K e && stdTy ty
+  | .while c b ty => stdA env file K c && stdA env file K b && stdTy ty
+  | .matchE s arms d ty =>
+    stdImm s && stdTy ty &&
+    (match s.ty with
+     | .enum _ =>
+       (match s with
+        | .var x _ => (lookupK K x).isNone && stdArms env file K (some x) arms && stdD env file K d
+        | _ => false)
+     | .unit => if arms.isEmpty then stdD env file K d else stdFirst env file K arms
+     | _ => stdArms env file K none arms && stdD env file K d)
   | _ => false
-def stdA (env : Env) (file : AFile) : AExpr → Bool
-  | .ret c => stdC env file c
-  | .letE _ v b _ => stdC env file v && stdTy v.annTy && stdA env file b
+def stdA (env : Env) (file : AFile) (K : KCtx) : AExpr → Bool
+  | .ret c => stdC env file K c
+  | .letE x v b _ => stdC env file K v && stdTy v.annTy && stdA env file (eraseK K x) b
+def stdArms (env : Env) (file : AFile) (K : KCtx) (x : Option String) : List AArm → Bool
+  | [] => true
+  | .mk lhs body :: rest =>
+    (match x, lhs with
+     | some x, .tag idx _ => stdA env file ((x, idx) :: K) body
+     | none, _ => stdA env file K body
+     | _, _ => false) && stdArms env file K x rest
+def stdFirst (env : Env) (file : AFile) (K : KCtx) : List AArm → Bool
+  | [] => false
+  | .mk _ body :: _ => stdA env file K body
+def stdD (env : Env) (file : AFile) (K : KCtx) : ADflt → Bool
+  | .none => true
+  | .some e => stdA env file K e
 end
 
 /-- the hypothesis of the typing half of T2 on a function (besides membership in a closed set `G`) -/
 def stdFn (env : Env) (file : AFile) (f : AFn) : Bool :=
-  f.params.all (fun p => stdTy p.2) && stdTy f.ret && stdA env file f.body
+  f.params.all (fun p => stdTy p.2) && stdTy f.ret && stdA env file [] f.body
 
 /-! ### why a function is outside (reporting only) -/
 
